@@ -283,6 +283,18 @@ func runQueryWire(c *Ctx, pr *PropertyRun, prop, pkg string) {
 		sch.ExpectControl("is-not-define")
 	}
 
+	// ---- round trip
+	rt := NewRule(prop, prop+".roundtrip", "for every query within the bounds, the value the server's backend receives equals the value the caller handed to the client: decode o encode = id at struct level, both codecs interpreted from SSA (E2)")
+	rt.Exhaustive = true
+	rt.Bounds = "filters: nesting 2, one sub-filter per level; component requests: nesting 2, two properties; two hrefs; the RFC grammar's exclusions define the domain"
+	pr.Rules = append(pr.Rules, rt)
+	if prop == "C08" {
+		caldavRoundtrips(c, rt)
+	} else {
+		carddavRoundtrips(c, rt)
+	}
+	rt.RequireRole("round-trip")
+
 	// ---- enumerations
 	en := NewRule(prop, prop+".enums", "the enumerated attribute values accepted by the decoders equal the RFC's lists and everything else is rejected; the encoders' constants are those values (E2)")
 	en.Exhaustive = true
